@@ -469,6 +469,7 @@ impl HalfConnection {
             tx_frame_base: self.frame_queue.base_id(),
             tx_frame_next: self.frame_queue.next_id(),
             tx_frame_log_len: self.frame_queue.verif_log_len(),
+            tx_frame_log_base: self.frame_queue.verif_log_base(),
             rx_packet_base: self.packet_receiver.base_id(),
             rx_frame_base: self.frame_ack_queue.base_id(),
             rx_alloc: self.packet_receiver.verif_alloc(),
